@@ -184,6 +184,7 @@ func deepCopyValue(v reflect.Value) reflect.Value {
 type c09Prec struct {
 	Atoms []string
 	Ops   []string
+	Wrap  string `json:"Wrap,omitempty"` // a bracketing position (%s) the sequence stands in: the grammar has its own productions for some of them
 }
 
 func c09OpByText(t string) c09Op {
@@ -207,6 +208,9 @@ var kC09Prec = run.NewKind("c09.precedence", func(c *run.Ctx, t c09Prec) *run.Fa
 	}
 	src := sb.String()
 	want, ok := specParen(t.Atoms, ops)
+	if t.Wrap != "" {
+		src, want = strings.ReplaceAll(t.Wrap, "%s", src), strings.ReplaceAll(t.Wrap, "%s", want)
+	}
 	q, err := gojq.Parse(src)
 	if !ok {
 		c.Count("sequences_that_must_be_rejected", 1)
@@ -416,6 +420,8 @@ var c09Surface = []string{
 	`module {name: "x", v: 1.5}; def f: 1;`, `1e3, .5, 1.5e-3, 0.0, 1E+2, 100000000000000000000, 1.000`, `if . then 1 elif .a then 2 elif .b then 3 else 4 end`, `if . then 1 end`, `try error catch .`, `try error`, `try (try error catch error) catch .`, `label $out | foreach .[] as $x (0; . + 1; if . > 2 then ., break $out else . end)`,
 	`[.[] | select(. > 1)] | map(. * 2) | add // 0`, `.a = 1 | .b |= 2 | .c += 3 | .d //= 4`, `[1, 2][0]`, `{a: 1}.a`, `"abc"[1:]`, `(1, 2)[0]?`, `[][0]`, `{}."a"`, `$x[0]`, `$x.a`, `f[0]`, `f(1)[0].a`, `if . then 1 else 2 end.a?`, `reduce . as $x (0; 1)[0]?`, `try 1 catch 2 | 3`, `-try 1`, `[-reduce -.[] as $i (0; . + $i)]`,
 	`.a as $x | .b as [$y] | $x + $y`, `"x" as $x | "y" as $y | [$x, $y] | join(",")`, `1 as $x | 2 as $x | $x`, `[.[] as $x | $x] as $y | $y`, `. as {a: $x, $y} | $x`, `. as {"a": $x} | 1`, `. as {("a", "b"): $x} | $x`, `. as {$a: [$b]} | $a`, `.. |= (. as $x | $x)`, `?//`, `1 ?// 2`,
+	`module {"": 1}; .`, `module {"": {"": [null, {"": 1}]}, "a b": 2, c: {"": 3, d: ""}}; def f: 1;`, `import "a" as a {"": "x", search: "./"}; a::f`, `include "a" {"": {"": ""}}; .`, `import "d" as $d {"": [], "\\": 1, "\"": 2, "\n": 3, "a.b": 4, "1": 5, "if": 6, "$x": 7}; $d`,
+	`module {"k": "", "": "k"}; import "a" as a {"": null}; include "b" {"": true}; .`, `module {a: {"": {b: {"": 1}}}}; .`,
 	`import "" as x; .`, `import "" as $d; $d`, `include ""; .`, `import "" as x {search: "./"}; x::f`, `import "a" as x; include ""; import "" as y; .`,
 	`# only a comment`, `1 # trailing`, "1 #c\\\n+ 2\n+ 3", "# a\r1", `"unterminated`, `"bad \q escape"`, `1 +`, `(1`, `[1, 2`, `{a: }`, `.a.`, `. a`, `1 2`, `$`, `@`, `.[`, `if 1 then 2`, `reduce . as $x (1)`, `def f: 1`, `1 as x | 2`, `import "a"; 1`, `{(1): 2, ("a"): 3}`, `.a as [$x, $x] | $x`, `0x10`, `1.2.3`, `..1`, `. .`, `.."a"`, `..[0]`, `. .[0]`, `. .a`, `. ."a"`, `. .[1:2].b`, `. .["a"]?`, `.. .a`, `1 .a`, `.a .b`,
 }
@@ -460,6 +466,9 @@ func c09StringLit(r *rand.Rand) string {
 	sb.WriteByte('"')
 	return sb.String()
 }
+
+var c09Wraps = []string{"{a: %s}", "{a: 1, b: %s}", "{a: %s, b: 2}", "{(%s): 1}", "{\"k\": %s}", "{$x: %s}", "{@base64 \"k\": %s}"[:0] + "{\"k\\(1)\": %s}", "[%s]", ".[%s]", ".x[%s:]", ".x[:%s]", "f(%s)", "f(1; %s)", "\"s\\(%s)\"", "if %s then 1 end", "if 1 then %s else 2 end", "if 1 then 2 else %s end",
+	"reduce .[] as $x (0; %s)", "reduce .[] as $x (%s; .)", "foreach .[] as $x (0; 1; %s)", "(%s)", "try (%s)", ". as {a: $y, (%s): $z} | 1", "def g: %s; g", "label $l | %s", ".a as $y | %s", "{a: {b: %s}}", "[{a: %s}]", "{a: [%s]}", "{a: (%s)}"}
 
 func c09Laws() []c09Law {
 	var laws []c09Law
@@ -525,6 +534,26 @@ func init() {
 		Rule:        "precedence: every ordered pair and triple of the 24 binary operators around three atom shapes (exhaustive) is parsed by the real parser and must have the AST of the spelling that the harness parenthesises with its own precedence-climbing over the statement's table (| right < , left < // right < update ops nonassoc < or < and < comparisons nonassoc < + - < * / %), or be rejected where two non-associative operators of one level meet; delimiting: 400 implicit/explicit spelling pairs for as/def/label/reduce/foreach/if/try/unary minus/optional/suffixes/object values/interpolation; print-roundtrip: Parse(q.String()) must be accepted and reflect.DeepEqual to q, and printing must be stable; respacing: white space and comments (LF/CRLF/CR-terminated, backslash-continued) inserted at the offsets where the real lexer was asked for a token outside strings must not change acceptance or the AST. Programs for the last two: a surface pool (every suffix form, nested interpolation, escapes, formats, patterns, keyword keys, module/import/metadata, malformed queries), PRNG-generated core-grammar programs, the corpus queries and token mutations of them, builtin.jq. Non-trivial = distinct accepted sources (precedence: every distinct sequence).",
 		Assumptions: []string{"ASTs are compared with reflect.DeepEqual after removing parenthesis-only terms", "the delimiting laws follow the grammar pinned by the corpus (e.g. `1 + 2 as $x | -$x` is -3: the source of `as` is an expression), not jq 1.6"},
 		Body: func(c *run.Ctx) {
+			// the same inside every bracketing position (object values, computed keys, array, index, slice boundaries, arguments,
+			// interpolation, the parts of if / reduce / foreach / try): pairs exhaustively, triples of the chaining operators
+			for _, w := range c09Wraps {
+				for _, o1 := range c09Ops {
+					for _, o2 := range c09Ops {
+						if strings.Contains(w, ": %s") && (o1.text == "," || o2.text == ",") {
+							continue // a comma ends an object value
+						}
+						kC09Prec.Do(c, c09Prec{Atoms: []string{".a", ".b", ".c"}, Ops: []string{o1.text, o2.text}, Wrap: w})
+						if o1.text == o2.text || o1.text == "|" || o2.text == "|" {
+							for _, o3 := range []string{"|", o1.text} {
+								if strings.Contains(w, ": %s") && o3 == "," {
+									continue
+								}
+								kC09Prec.Do(c, c09Prec{Atoms: []string{".a", "1", "$x", "f"}, Ops: []string{o1.text, o2.text, o3}, Wrap: w})
+							}
+						}
+					}
+				}
+			}
 			shapes := [][]string{{".a", ".b", ".c", ".d"}, {"1", "2", "3", "4"}, {"f", "g(1)", "$x", ".[0]"}}
 			c.Gauge("exhaustive_operator_pairs_and_triples", 1)
 			for _, sh := range shapes {
